@@ -40,11 +40,19 @@ Theorem gen_delete_if_exists_equiv (path : bytes) (remove : bytes -> W -> W * or
   gen_delete_if_exists path remove w = delete_if_exists path remove w.
 Proof. unfold gen_delete_if_exists, delete_if_exists. equiv_auto. Qed.
 
+Lemma gen_wloop_equiv fuel fd view w :
+  gen_write_to_tempfile_wloop rt fuel fd view w = write_loop rt fuel fd view w.
+Proof.
+  revert view w. induction fuel as [|k IH]; intros view w; [reflexivity|].
+  cbn [gen_write_to_tempfile_wloop write_loop].
+  repeat first [apply IH | equiv_step].
+Qed.
+
 Theorem gen_write_to_tempfile_equiv content path suffix prefix w :
   gen_write_to_tempfile rt content path suffix prefix w = write_to_tempfile rt content path suffix prefix w.
 Proof.
-  unfold gen_write_to_tempfile, write_to_tempfile, write_and_close.
-  repeat first [rewrite gen_ensure_tree_equiv in * | equiv_step].
+  unfold gen_write_to_tempfile, write_to_tempfile, write_and_close, write_all.
+  repeat first [rewrite gen_ensure_tree_equiv in * | rewrite gen_wloop_equiv in * | equiv_step].
 Qed.
 
 Lemma gen_loop_equiv fuel n f h :
@@ -495,14 +503,11 @@ Context {W H K : Type} (rt : runtime W H).
    [key p]       the file-system object a path string denotes
    [look k w]    what is there in world w: nothing, a directory, a regular file + content
    [fd_key fd w] the object an open descriptor refers to
-   [tmpdir]      the directory mkstemp uses when dir is None
-   [wlimit]      see below *)
+   [tmpdir]      the directory mkstemp uses when dir is None *)
 Variable key : bytes -> K.
 Variable look : K -> W -> option node.
 Variable fd_key : Z -> W -> option K.
 Variable tmpdir : bytes.
-(* the number of bytes one write(2) transfers at most (Linux: MAX_RW_COUNT = [wlimit]) *)
-Variable wlimit : Z.
 
 (* CONTRACT on os / tempfile (each clause is tested by the harness on the real calls) *)
 Record fs_contract : Prop := {
@@ -526,10 +531,14 @@ Record fs_contract : Prop := {
       look (key p) w = None /\ look (key p) w' = Some (NFile []) /\ fd_key fd w' = Some (key p) /\
       (forall k, k <> key p -> look k w' = look k w) /\
       (exists tag, p = (match d with Some x => x | None => tmpdir end) ++ [47%N] ++ pre ++ tag ++ s);
-  (* write on a descriptor of an empty file stores the whole buffer when it fits one write(2) *)
-  write_ok : forall fd k c w, fd_key fd w = Some k -> look k w = Some (NFile []) -> zlen c <= wlimit ->
-      exists w', rt_write rt fd c w = (w', OOk (zlen c)) /\ look k w' = Some (NFile c) /\
-                 (forall k', k' <> k -> look k' w' = look k' w) /\ fd_key fd w' = Some k;
+  (* write: PROGRESS — a write of a non-empty buffer that returns at all transfers at least
+     one byte and at most the buffer (it may be short: Linux caps one write(2) at
+     0x7ffff000 bytes); on a descriptor of a regular file it appends the transferred prefix *)
+  write_progress : forall fd c w w' n, rt_write rt fd c w = (w', OOk n) -> c <> [] -> 1 <= n <= zlen c;
+  write_appends : forall fd k c old w, fd_key fd w = Some k -> look k w = Some (NFile old) -> c <> [] ->
+      exists w' n, rt_write rt fd c w = (w', OOk n) /\
+                   look k w' = Some (NFile (old ++ btake (Z.to_N n) c)) /\
+                   (forall k', k' <> k -> look k' w' = look k' w) /\ fd_key fd w' = Some k;
   close_ok : forall fd k w, fd_key fd w = Some k ->
       exists w', rt_close rt fd w = (w', OOk tt) /\ (forall k', look k' w' = look k' w);
   open_look : forall p w c, rt_open_rb rt p w = OOk c <-> look (key p) w = Some (NFile c)
@@ -621,15 +630,69 @@ Theorem delete_if_exists_post_idempotent path w w' :
 Proof. intros Hrun. split; [exact (delete_if_exists_post _ _ _ Hrun)|exact (delete_if_exists_idempotent _ _ _ Hrun)]. Qed.
 
 (* --- write_to_tempfile --- *)
+Lemma zlen_zero_nil view : (zlen view =? 0) = true -> view = [].
+Proof. intros Hz. apply Z.eqb_eq in Hz. apply zlen_nil_iff. exact Hz. Qed.
+
+Lemma zlen_nonzero view : (zlen view =? 0) = false -> view <> [].
+Proof. intros Hz ->. discriminate Hz. Qed.
+
+Lemma length_bskip_lt n view k : 1 <= n -> (length view < S k)%nat -> view <> [] ->
+  (length (bskip (Z.to_N n) view) < k)%nat.
+Proof.
+  intros Hn Hlen Hne. pose proof (blen_bskip (Z.to_N n) view) as Hb. unfold blen in Hb.
+  destruct view; [congruence|]. cbn [length] in *. lia.
+Qed.
+
+(* the write loop never runs out of fuel (its default is unreachable): every round that does
+   not stop transfers at least one byte *)
+Theorem write_loop_total : forall fuel fd view w, (length view < fuel)%nat ->
+  exists r, write_loop rt fuel fd view w = Some r.
+Proof.
+  induction fuel as [|k IH]; intros fd view w Hlen; [lia|].
+  cbn [write_loop]. destruct (zlen view =? 0) eqn:Ez; [eexists; reflexivity|].
+  pose proof (zlen_nonzero view Ez) as Hne.
+  destruct (rt_write rt fd view w) as [w1 [n|e|x]] eqn:Hw; try (eexists; reflexivity).
+  destruct (write_progress HC _ _ _ _ _ Hw Hne) as [Hn1 Hn2].
+  rewrite zslice_from by lia. apply IH. apply length_bskip_lt; assumption.
+Qed.
+
+Corollary write_all_not_default fd content w :
+  exists r, write_loop rt (S (length content)) fd content w = Some r /\ write_all rt fd content w = r.
+Proof.
+  destruct (write_loop_total (S (length content)) fd content w) as [r Hr]; [lia|].
+  exists r. split; [exact Hr|]. unfold write_all. rewrite Hr. reflexivity.
+Qed.
+
+(* on an open descriptor of a regular file the loop ends normally with everything appended,
+   however short the individual writes were *)
+Lemma write_loop_ok : forall fuel fd k view old w,
+  fd_key fd w = Some k -> look k w = Some (NFile old) -> (length view < fuel)%nat ->
+  exists w', write_loop rt fuel fd view w = Some (w', OOk tt) /\ look k w' = Some (NFile (old ++ view)) /\
+             (forall k', k' <> k -> look k' w' = look k' w) /\ fd_key fd w' = Some k.
+Proof.
+  induction fuel as [|m IH]; intros fd k view old w Hfd Hold Hlen; [lia|].
+  cbn [write_loop]. destruct (zlen view =? 0) eqn:Ez.
+  - apply zlen_zero_nil in Ez. subst view. exists w. rewrite app_nil_r. auto.
+  - pose proof (zlen_nonzero view Ez) as Hne.
+    destruct (write_appends HC fd k view old w Hfd Hold Hne) as [w1 [n [Hw [Hl1 [Hfr1 Hfd1]]]]].
+    destruct (write_progress HC _ _ _ _ _ Hw Hne) as [Hn1 Hn2].
+    rewrite Hw. rewrite zslice_from by lia.
+    destruct (IH fd k (bskip (Z.to_N n) view) (old ++ btake (Z.to_N n) view) w1 Hfd1 Hl1
+                 (length_bskip_lt n view m Hn1 Hlen Hne)) as [w' [Hrun [Hl' [Hfr' Hfd']]]].
+    exists w'. split; [exact Hrun|]. split; [|split; [|exact Hfd']].
+    + rewrite Hl'. rewrite <- app_assoc, btake_bskip_app. reflexivity.
+    + intros k' Hk'. rewrite (Hfr' k' Hk'). apply Hfr1. exact Hk'.
+Qed.
+
 Lemma write_and_close_ok fd k c w2 :
-  fd_key fd w2 = Some k -> look k w2 = Some (NFile []) -> zlen c <= wlimit ->
+  fd_key fd w2 = Some k -> look k w2 = Some (NFile []) ->
   exists w4, write_and_close rt fd c w2 = (w4, OOk tt) /\ look k w4 = Some (NFile c) /\
              (forall k', k' <> k -> look k' w4 = look k' w2).
 Proof.
-  intros Hfd Hempty Hlen.
-  destruct (write_ok HC fd k c w2 Hfd Hempty Hlen) as [w3 [Hw [Hc [Hframe Hfd3]]]].
+  intros Hfd Hempty.
+  destruct (write_loop_ok (S (length c)) fd k c [] w2 Hfd Hempty) as [w3 [Hw [Hc [Hframe Hfd3]]]]; [lia|].
   destruct (close_ok HC fd k w3 Hfd3) as [w4 [Hcl Hsame]].
-  exists w4. unfold write_and_close. rewrite Hw, Hcl.
+  exists w4. unfold write_and_close, write_all. rewrite Hw, Hcl.
   split; [reflexivity|]. split.
   - rewrite Hsame. exact Hc.
   - intros k' Hk'. rewrite Hsame. apply Hframe. exact Hk'.
@@ -646,7 +709,6 @@ Definition tempfile_dir (path : option bytes) : bytes :=
        one (ensure_tree) BEFORE mkstemp ran,
    (5) everything that existed before is still there, unchanged. *)
 Theorem write_to_tempfile_spec content path suffix prefix w w' name :
-  zlen content <= wlimit ->
   write_to_tempfile rt content path suffix prefix w = (w', OOk name) ->
   look (key name) w = None /\
   look (key name) w' = Some (NFile content) /\
@@ -657,7 +719,7 @@ Theorem write_to_tempfile_spec content path suffix prefix w w' name :
                       rt_mkstemp rt suffix path prefix w1 = (w2, OOk (fd, name))) /\
   (forall k n, look k w = Some n -> look k w' = Some n).
 Proof.
-  intros Hlen. unfold write_to_tempfile.
+  unfold write_to_tempfile.
   set (pre := match path with
               | Some p => if nonempty p then ensure_tree rt p default_mode w else (w, OOk tt)
               | None => (w, OOk tt) end).
@@ -676,7 +738,7 @@ Proof.
   destruct (rt_mkstemp rt suffix path prefix w1) as [w2 [[fd nm]|e|x]] eqn:Hmk;
     [|intros Heq; discriminate|intros Heq; discriminate].
   destruct (mkstemp_ok HC _ _ _ _ _ _ _ Hmk) as [Hfresh [Hempty [Hfd [Hframe2 Hname]]]].
-  destruct (write_and_close_ok fd (key nm) content w2 Hfd Hempty Hlen) as [w4 [Hwc [Hcontent Hframe4]]].
+  destruct (write_and_close_ok fd (key nm) content w2 Hfd Hempty) as [w4 [Hwc [Hcontent Hframe4]]].
   rewrite Hwc. intros Heq. injection Heq as <- <-.
   assert (Hkeep : forall k n, look k w1 = Some n -> look k w4 = Some n).
   { intros k n Hk. assert (Hne : k <> key nm) by (intros ->; congruence).
@@ -692,18 +754,17 @@ Proof.
   - intros k n Hk. apply Hkeep, Hkeep1. exact Hk.
 Qed.
 
-(* it does succeed whenever mkstemp does (content within one write) ... *)
+(* it does succeed whenever mkstemp does ... *)
 Theorem write_to_tempfile_succeeds content path suffix prefix w w1 w2 fd name :
-  zlen content <= wlimit ->
   (match path with
    | Some p => if nonempty p then ensure_tree rt p default_mode w else (w, OOk tt)
    | None => (w, OOk tt) end) = (w1, OOk tt) ->
   rt_mkstemp rt suffix path prefix w1 = (w2, OOk (fd, name)) ->
   exists w', write_to_tempfile rt content path suffix prefix w = (w', OOk name).
 Proof.
-  intros Hlen Hpre Hmk. unfold write_to_tempfile. rewrite Hpre, Hmk.
+  intros Hpre Hmk. unfold write_to_tempfile. rewrite Hpre, Hmk.
   destruct (mkstemp_ok HC _ _ _ _ _ _ _ Hmk) as [_ [Hempty [Hfd _]]].
-  destruct (write_and_close_ok fd (key name) content w2 Hfd Hempty Hlen) as [w4 [Hwc _]].
+  destruct (write_and_close_ok fd (key name) content w2 Hfd Hempty) as [w4 [Hwc _]].
   exists w4. rewrite Hwc. reflexivity.
 Qed.
 
